@@ -21,6 +21,7 @@ def run_one(pid, tier, only=None):
         ctx = report.Ctx(pid, tier=tier, seed=int(os.environ.get('VERIF_SEED', '0') or 0))
         ctx.only = only
         mod.run(ctx)
+        generic_rules(ctx, pid)
         if tier == 'thorough' and not only:
             thorough_extras(ctx, pid)
         return report.finish(ctx, mod.LEVEL, mod.EXPLANATION, './check %s --tier %s' % (pid, tier))
@@ -33,6 +34,24 @@ def run_one(pid, tier, only=None):
         print('ANALYSIS-ERROR property=%s internal error: %s' % (pid, e))
         traceback.print_exc()
         return 2
+
+
+def generic_rules(ctx, pid):
+    """rules that apply to the code of every property: run over the files the property is anchored in (properties.jsonl)"""
+    from . import abstol
+    try:
+        props = [json.loads(l) for l in open(os.path.join(report.VERIF, 'properties.jsonl')) if l.strip()]
+        files = next((p['anchors']['files'] for p in props if p['id'] == pid), [])
+    except Exception as e:
+        ctx.unrec(pid + '-G1', 'properties.jsonl', 'cannot read the anchors: %s' % e)
+        return
+    ctx.rule(pid + '-G1', 'closeness tests on data carry an explicit absolute tolerance (no hidden 1e-8 scale)')
+    by_rel = {m.relpath: m for m in ctx.repo.modules.values()}
+    for rel in files:
+        m = by_rel.get(rel)
+        if m is None:
+            continue
+        ctx.guarded(pid + '-G1', rel + '@tolerances', abstol.check, ctx, pid + '-G1', m)
 
 
 def thorough_extras(ctx, pid):
